@@ -92,6 +92,13 @@ func main() {
 				os.Exit(2)
 			}
 			res = runCarrierCase(&c)
+		case "idle":
+			var c IdleCase
+			if err := json.Unmarshal(b, &c); err != nil {
+				fmt.Fprintf(os.Stderr, "line %d: %v\n", line, err)
+				os.Exit(2)
+			}
+			res = runIdleCase(&c)
 		case "pool":
 			var c PoolCase
 			if err := json.Unmarshal(b, &c); err != nil {
